@@ -6,6 +6,10 @@ closed forms as functions of the concurrence) depends on the regenerated guard f
 `NumqiProofs/DecisionC13.lean`.
 -/
 import NumqiProofs.EntangleConj
+import NumqiProofs.EntangleNuc
+import Mathlib.Analysis.SpecialFunctions.Log.NegMulLog
+import Mathlib.Analysis.Convex.Jensen
+import Mathlib.Algebra.Order.Chebyshev
 import Mathlib.Tactic
 import Mathlib.LinearAlgebra.Matrix.Determinant.Basic
 import Mathlib.LinearAlgebra.Matrix.Adjugate
@@ -186,6 +190,210 @@ theorem spinFlip_local_unitary (U V : Matrix (Fin 2) (Fin 2) ℂ) (hU : U * Uᴴ
           calc U.det * V.det * (star U.det * star V.det) = (star U.det * U.det) * (star V.det * V.det) := by ring
             _ = 1 := by rw [a, b, one_mul]
         rw [this, one_smul]
+
+
+/-! ## pure states: the mixed-state formulas reduce to the pure-state ones -/
+
+/-- `ρ = ψψᴴ` on flat indices -/
+def pureRho (ψ : Nat → R) : Nat → Nat → R := fun r c => ψ r * conj (ψ c)
+
+/-- the spin-flipped vector `ψ̃ = (σy⊗σy) ψ*` -/
+def flipVec (ψ : Nat → R) : Nat → R := fun i => flipSign i * conj (ψ (3 - i))
+
+/-- `det ψ` of the 2×2 amplitude matrix `ψ[2a+b]` -/
+def det2 (ψ : Nat → R) : R := ψ 0 * ψ 3 - ψ 1 * ψ 2
+
+/-- **spin flip of a pure state is the pure state of the flipped vector** -/
+theorem spinFlip_pure (ψ : Nat → R) (i j : Fin 4) : spinFlip (pureRho ψ) i j = pureRho (flipVec ψ) i j := by
+  fin_cases i <;> fin_cases j <;> simp [spinFlip, pureRho, flipVec, flipSign, conj_eq_star, star_mul']
+
+/-- `⟨ψ|ψ̃⟩ = -2·conj(det ψ)` -/
+theorem overlap_flipVec (ψ : Nat → R) : sumRange 4 (fun k => conj (ψ k) * flipVec ψ k) = -2 * star (det2 ψ) := by
+  simp [sumRange, List.range_succ, flipVec, flipSign, det2, conj_eq_star, star_mul']
+  ring
+
+private theorem matMul_rankOne (u v x y : Nat → R) (i j : Nat) :
+    matMul 4 (fun r c => u r * conj (v c)) (fun r c => x r * conj (y c)) i j
+      = sumRange 4 (fun k => conj (v k) * x k) * (u i * conj (y j)) := by
+  simp [matMul, sumRange, List.range_succ]; ring
+
+omit [StarRing R] in
+private theorem matMul4_congr {A A' B B' : Nat → Nat → R} (hA : ∀ i k : Fin 4, A i k = A' i k) (hB : ∀ k j : Fin 4, B k j = B' k j)
+    (i j : Fin 4) : matMul 4 A B i j = matMul 4 A' B' i j := by
+  simp only [matMul, sumRange, List.range_succ, List.range_zero, List.nil_append, List.cons_append, List.map_cons, List.map_nil,
+    List.sum_cons, List.sum_nil]
+  have a0 := hA i 0; have a1 := hA i 1; have a2 := hA i 2; have a3 := hA i 3
+  have b0 := hB 0 j; have b1 := hB 1 j; have b2 := hB 2 j; have b3 := hB 3 j
+  simp only [Fin.val_zero, Fin.val_one, Fin.val_two, show ((3 : Fin 4) : Nat) = 3 from rfl] at a0 a1 a2 a3 b0 b1 b2 b3
+  rw [a0, a1, a2, a3, b0, b1, b2, b3]
+
+/-- **`R = ρ ρ̃` of a pure state is rank one**: `R = ⟨ψ|ψ̃⟩ · ψ ψ̃ᴴ` -/
+theorem pure_R_rankOne (ψ : Nat → R) (i j : Fin 4) :
+    matMul 4 (pureRho ψ) (spinFlip (pureRho ψ)) i j = (-2 * star (det2 ψ)) * (ψ i * conj (flipVec ψ j)) := by
+  rw [matMul4_congr (A' := pureRho ψ) (B' := pureRho (flipVec ψ)) (fun _ _ => rfl) (spinFlip_pure ψ)]
+  unfold pureRho
+  rw [matMul_rankOne, overlap_flipVec]
+
+/-- its trace is `4·det ψ·conj(det ψ) = (2|det ψ|)²` … -/
+theorem pure_R_trace (ψ : Nat → R) :
+    sumRange 4 (fun i => (-2 * star (det2 ψ)) * (ψ i * conj (flipVec ψ i))) = 4 * (det2 ψ * star (det2 ψ)) := by
+  simp [sumRange, List.range_succ, flipVec, flipSign, det2, conj_eq_star, star_mul']
+  ring
+
+/-- … and `R² = (tr R)·R`: the only possibly non-zero eigenvalue of `R` is `(2|det ψ|)²` -/
+theorem pure_R_sq (ψ : Nat → R) (i j : Nat) :
+    matMul 4 (fun r c => (-2 * star (det2 ψ)) * (ψ r * conj (flipVec ψ c))) (fun r c => (-2 * star (det2 ψ)) * (ψ r * conj (flipVec ψ c))) i j
+      = (4 * (det2 ψ * star (det2 ψ))) * ((-2 * star (det2 ψ)) * (ψ i * conj (flipVec ψ j))) := by
+  simp [matMul, sumRange, List.range_succ, flipVec, flipSign, det2, conj_eq_star, star_mul']
+  ring
+
+/-- **the matrix handed to `eigvalsh` for a pure state** (`sqrt_rho = ρ` because `ρ² = ρ` for a unit vector; the identity
+holds for every `ψ`): `ρ ρ̃ ρ = (2|det ψ|)² · ρ`. -/
+theorem concurrenceArg_pure (ψ : Nat → R) (i j : Fin 4) :
+    concurrenceArg (pureRho ψ) (pureRho ψ) i j = (4 * (det2 ψ * star (det2 ψ))) * pureRho ψ i j := by
+  unfold concurrenceArg
+  have h1 : ∀ i k : Fin 4, matMul 4 (pureRho ψ) (spinFlip (pureRho ψ)) i k
+      = (fun r c => (-2 * star (det2 ψ) * ψ r) * conj (flipVec ψ c)) i k := by
+    intro i k; rw [pure_R_rankOne]; ring
+  rw [matMul4_congr (A' := fun r c => (-2 * star (det2 ψ) * ψ r) * conj (flipVec ψ c)) (B' := pureRho ψ) h1 (fun _ _ => rfl)]
+  unfold pureRho
+  rw [matMul_rankOne]
+  have : sumRange 4 (fun k => conj (flipVec ψ k) * ψ k) = -2 * det2 ψ := by
+    simp [sumRange, List.range_succ, flipVec, flipSign, det2, conj_eq_star]
+    ring
+  rw [this]; ring
+
+/-- a unit vector's projector is idempotent, so it is its own positive square root (the `eigh` contract for pure states) -/
+theorem pureRho_idem (ψ : Nat → R) (hn : sumRange 4 (fun k => conj (ψ k) * ψ k) = 1) (i j : Nat) :
+    matMul 4 (pureRho ψ) (pureRho ψ) i j = pureRho ψ i j := by
+  unfold pureRho
+  rw [matMul_rankOne, hn, one_mul]
+
+/-- eigen-structure of `t·ψψᴴ`: `ψ` is an eigenvector with eigenvalue `t‖ψ‖²`, everything orthogonal to `ψ` is in the kernel -/
+theorem rankOne_eigen (t : R) (ψ v : Nat → R) (r : Nat) :
+    sumRange 4 (fun c => (t * pureRho ψ r c) * v c) = (t * sumRange 4 (fun c => conj (ψ c) * v c)) * ψ r := by
+  simp [sumRange, List.range_succ, pureRho]; ring
+
+/-- the reduced state `T = ψᴴψ` of a two-qubit pure state (as in `get_concurrence_pure` / `get_eof_pure`) has trace `‖ψ‖²` and
+determinant `det ψ·conj(det ψ)`: its eigenvalues (Schmidt weights) are the roots of `x² − ‖ψ‖² x + |det ψ|²` -/
+theorem schmidt_trace_det (ψ : Nat → R) :
+    let T : Nat → Nat → R := fun i j => sumRange 2 fun a => conj (ψ (2 * a + i)) * ψ (2 * a + j)
+    T 0 0 + T 1 1 = sumRange 4 (fun k => conj (ψ k) * ψ k) ∧ T 0 0 * T 1 1 - T 0 1 * T 1 0 = det2 ψ * star (det2 ψ) := by
+  constructor
+  · simp [sumRange, List.range_succ]; ring
+  · simp [sumRange, List.range_succ, det2, conj_eq_star, star_mul']; ring
+
+
+/-! ## Bell-diagonal states -/
+
+/-- a Bell-diagonal state with self-conjugate (real) weights is its own spin flip -/
+theorem bellDiag_spinFlip (p : Nat → R) (hp : ∀ i, star (p i) = p i) (i j : Fin 4) :
+    spinFlip (bellDiag2 p) i j = bellDiag2 p i j := by
+  fin_cases i <;> fin_cases j <;> simp [spinFlip, flipSign, bellDiag2, conj_eq_star, hp]
+
+omit [StarRing R] in
+/-- Bell-diagonal matrices multiply weight-wise: `B(a)·B(b) = 2·B(ab)` -/
+theorem bellDiag2_matMul (a b : Nat → R) (i j : Fin 4) :
+    matMul 4 (bellDiag2 a) (bellDiag2 b) i j = 2 * bellDiag2 (fun k => a k * b k) i j := by
+  fin_cases i <;> fin_cases j <;> simp [matMul, sumRange, List.range_succ, bellDiag2] <;> ring
+
+/-- **the argument of `eigvalsh` for a Bell-diagonal state**: with `sqrt_rho = ½·B(s)`, `ρ = ½·B(p)` (`B = bellDiag2`)
+one gets `½·B(s·p·s)`; division-free: `B(s)·spinFlip(B(p))·B(s) = 4·B(s p s)`. For `s_i = √p_i` this is `B(p²)`. -/
+theorem concurrenceArg_bellDiag (s p : Nat → R) (hp : ∀ i, star (p i) = p i) (i j : Fin 4) :
+    concurrenceArg (bellDiag2 s) (bellDiag2 p) i j = 4 * bellDiag2 (fun k => s k * p k * s k) i j := by
+  unfold concurrenceArg
+  have h1 : ∀ i k : Fin 4, matMul 4 (bellDiag2 s) (spinFlip (bellDiag2 p)) i k = 2 * bellDiag2 (fun k => s k * p k) i k := by
+    intro i k
+    rw [matMul4_congr (A' := bellDiag2 s) (B' := bellDiag2 p) (fun _ _ => rfl) (bellDiag_spinFlip p hp), bellDiag2_matMul]
+  rw [matMul4_congr (A' := fun i k => 2 * bellDiag2 (fun k => s k * p k) i k) (B' := bellDiag2 s) h1 (fun _ _ => rfl)]
+  have h2 := bellDiag2_matMul (fun k => s k * p k) s i j
+  simp only [matMul, sumRange, List.range_succ, List.range_zero, List.nil_append, List.cons_append, List.map_cons, List.map_nil,
+    List.sum_cons, List.sum_nil] at h2 ⊢
+  linear_combination 2 * h2
+
+omit [StarRing R] in
+/-- `B(q)` is diagonal in the Bell basis: `B(q)·bellVec_i = 2 q_{σ(i)}·bellVec_i` with `σ = (0,1,2,3)` for the state itself -/
+theorem bellDiag2_mulVec_bellVec (q : Nat → R) (i r : Fin 4) :
+    sumRange 4 (fun c => bellDiag2 q r c * bellVec i c) = 2 * q i * bellVec i r := by
+  fin_cases i <;> fin_cases r <;> simp [sumRange, List.range_succ, bellDiag2, bellVec] <;> ring
+
+
+/-! ## every loss is a convex combination of member values in range -/
+
+/-- **purity of an (unnormalised) reduced state is at most the square of its trace**: for `G = A Aᴴ` (the reduced state of
+the ensemble member with amplitude matrix `A`, theorem `ensembleRdm_eq`), `Σ_ij |G_ij|² ≤ (Σ_ib |A_ib|²)²` -/
+theorem gram_purity_le {m n : Type} [Fintype m] [Fintype n] (A : Matrix m n ℂ) :
+    ∑ i, ∑ j, ‖(A * Aᴴ) i j‖ ^ 2 ≤ (∑ i, ∑ b, ‖A i b‖ ^ 2) ^ 2 := by
+  have h : ∀ i j, ‖(A * Aᴴ) i j‖ ^ 2 ≤ (∑ b, ‖A i b‖ ^ 2) * (∑ b, ‖A j b‖ ^ 2) := by
+    intro i j
+    have e : (A * Aᴴ) i j = star (fun b => A j b) ⬝ᵥ (fun b => A i b) := by
+      simp [Matrix.mul_apply, conjTranspose_apply, dotProduct, mul_comm]
+    rw [e, mul_comm]
+    exact norm_dotProduct_sq_le _ _
+  calc ∑ i, ∑ j, ‖(A * Aᴴ) i j‖ ^ 2 ≤ ∑ i, ∑ j, (∑ b, ‖A i b‖ ^ 2) * (∑ b, ‖A j b‖ ^ 2) :=
+        Finset.sum_le_sum fun i _ => Finset.sum_le_sum fun j _ => h i j
+    _ = (∑ i, ∑ b, ‖A i b‖ ^ 2) ^ 2 := by rw [sq, Finset.sum_mul_sum]
+
+/-- … and at least `trace²/dim`: the purity of the normalised reduced state lies in `[1/d, 1]` -/
+theorem gram_purity_ge {m n : Type} [Fintype m] [Fintype n] (A : Matrix m n ℂ) :
+    (∑ i, ∑ b, ‖A i b‖ ^ 2) ^ 2 ≤ (Fintype.card m : ℝ) * ∑ i, ∑ j, ‖(A * Aᴴ) i j‖ ^ 2 := by
+  have hd : ∀ i, ‖(A * Aᴴ) i i‖ = ∑ b, ‖A i b‖ ^ 2 := by
+    intro i
+    have e : (A * Aᴴ) i i = ((∑ b, ‖A i b‖ ^ 2 : ℝ) : ℂ) := by
+      simp only [Matrix.mul_apply, conjTranspose_apply]
+      push_cast
+      refine Finset.sum_congr rfl fun b _ => ?_
+      rw [Complex.star_def, Complex.mul_conj']
+    rw [e, Complex.norm_real, Real.norm_of_nonneg (Finset.sum_nonneg fun _ _ => by positivity)]
+  calc (∑ i, ∑ b, ‖A i b‖ ^ 2) ^ 2 ≤ (Fintype.card m : ℝ) * ∑ i, (∑ b, ‖A i b‖ ^ 2) ^ 2 := by
+        have := sq_sum_le_card_mul_sum_sq (s := (Finset.univ : Finset m)) (f := fun i => ∑ b, ‖A i b‖ ^ 2)
+        simpa using this
+    _ ≤ (Fintype.card m : ℝ) * ∑ i, ∑ j, ‖(A * Aᴴ) i j‖ ^ 2 := by
+        gcongr with i _
+        rw [← hd i]
+        exact Finset.single_le_sum (f := fun j => ‖(A * Aᴴ) i j‖ ^ 2) (fun _ _ => by positivity) (Finset.mem_univ i)
+
+/-- overlap of a member with a unit vector is at most the member's weight (GME loss members lie in `[0, p_α]`) -/
+theorem overlap_sq_le {n : Type} [Fintype n] (φ ψ : n → ℂ) (hφ : ∑ k, ‖φ k‖ ^ 2 = 1) :
+    ‖∑ k, ψ k * φ k‖ ^ 2 ≤ ∑ k, ‖ψ k‖ ^ 2 := by
+  have := norm_dotProduct_sq_le (fun k => star (φ k)) ψ
+  simp only [dotProduct, Pi.star_apply, star_star, norm_star, hφ, one_mul] at this
+  simpa [mul_comm] using this
+
+/-- entropy of a member: for a spectrum `λ ≥ 0` with `Σλ = p`, `0 ≤ p log p − Σ λ log λ ≤ p log d` -/
+theorem member_entropy_range {d : Nat} (lam : Fin d → ℝ) (h0 : ∀ i, 0 ≤ lam i) (p : ℝ) (hp : ∑ i, lam i = p) (hd : 0 < d) :
+    0 ≤ p * Real.log p - ∑ i, lam i * Real.log (lam i) ∧ p * Real.log p - ∑ i, lam i * Real.log (lam i) ≤ p * Real.log d := by
+  have hp0 : 0 ≤ p := hp ▸ Finset.sum_nonneg fun i _ => h0 i
+  constructor
+  · have : ∑ i, lam i * Real.log (lam i) ≤ ∑ i, lam i * Real.log p := by
+      refine Finset.sum_le_sum fun i _ => ?_
+      rcases (h0 i).eq_or_lt with h | h
+      · simp [← h]
+      · have hle : lam i ≤ p := hp ▸ Finset.single_le_sum (fun j _ => h0 j) (Finset.mem_univ i)
+        exact mul_le_mul_of_nonneg_left (Real.log_le_log h hle) (h0 i)
+    rw [← Finset.sum_mul, hp] at this
+    linarith
+  · -- Jensen for the concave x ↦ -x log x with uniform weights
+    have hd' : (0 : ℝ) < d := by exact_mod_cast hd
+    have hJ := Real.concaveOn_negMulLog.le_map_sum (t := Finset.univ) (w := fun _ : Fin d => (1 / d : ℝ)) (p := lam)
+      (fun _ _ => by positivity) (by simp [hd'.ne']) (fun i _ => h0 i)
+    simp only [smul_eq_mul, ← Finset.mul_sum, hp, Real.negMulLog] at hJ
+    have e : ∑ i, -(lam i) * Real.log (lam i) = -∑ i, lam i * Real.log (lam i) := by
+      rw [← Finset.sum_neg_distrib]; exact Finset.sum_congr rfl fun i _ => by ring
+    rw [e] at hJ
+    rcases hp0.eq_or_lt with h | h
+    · rw [← h] at hJ ⊢
+      have hz : ∀ i, lam i = 0 := fun i =>
+        (Finset.sum_eq_zero_iff_of_nonneg fun j _ => h0 j).1 (hp.trans h.symm) i (Finset.mem_univ i)
+      simp [hz]
+    · have hl : Real.log (1 / d * p) = Real.log p - Real.log d := by
+        rw [Real.log_mul (by positivity) h.ne', one_div, Real.log_inv]; ring
+      rw [hl] at hJ
+      have : 1 / (d : ℝ) * (-∑ i, lam i * Real.log (lam i)) ≤ 1 / (d : ℝ) * (-(p * (Real.log p - Real.log d))) := by
+        calc _ ≤ -(1 / d * p) * (Real.log p - Real.log d) := hJ
+          _ = _ := by ring
+      have := le_of_mul_le_mul_left this (by positivity)
+      linarith
 
 
 /-! ## the hypotheses are satisfiable, the statements are not vacuous -/
